@@ -130,12 +130,21 @@ def run(ck):
                 ok = all(q.term is not None and q.term.is_zero() for _, q in module_params(p.interp, p.value))
                 ck.check(ok, "C20.R3", rbm + "/zero_weights", prog.method(rbm, "initialize_parameters").site(), "zero_weights=True does not zero every parameter")
     # ------------------------------------------------------------------ R4 reinitialisation and fit guards
-    for cls in STATES:
+    for cls, zero_mod in [(c_, z_) for c_ in STATES for z_ in (False, True)]:
         rsite = prog.method(cls, "reinitialize_parameters").site()
-        inst = cls + ".reinitialize_parameters"
+        # (second context: the state was built around a module that had been constructed with zero_weights=True - reinitialising
+        # still means new random weights)
+        inst = cls + ".reinitialize_parameters" + ("/module built with zero weights" if zero_mod else "")
         with ck.guard("C20.R4", inst, rsite):
-            def th(it):
-                s = make_state(it, cls)
+            def th(it, cls=cls, zero_mod=zero_mod):
+                if zero_mod:
+                    rcls = prog.cls("PurificationRBM" if cls == "DensityMatrix" else "BinaryRBM")
+                    kw_ = {"num_visible": dimval("nv"), "num_hidden": dimval("nh"), "zero_weights": VConst(True), "gpu": VConst(False)}
+                    if cls == "DensityMatrix":
+                        kw_["num_aux"] = dimval("na")
+                    s = make_state(it, cls, with_module=it.instantiate(rcls, [], kw_, None))
+                else:
+                    s = make_state(it, cls)
                 before = {n: [q.shape for _, q in module_params(it, it.get_attr(s, n, None))] for n in state_networks(it, s)}
                 sizes = {k: num_term(v) for k, v in s.inst.attrs.items() if k.startswith("num_")}
                 call(it, s, "reinitialize_parameters")
